@@ -397,3 +397,104 @@ pub fn show_voutcome(o: &Option<VOutcome>) -> String {
         None => "none".to_string(),
     }
 }
+
+// ------------------------------------------------------------------------------------------------ built-ins
+/// the pure built-ins of the vector stream: HLSL name, `ir::Intrinsic` variant, how the result type follows from the
+/// (first) argument type.  Their *values* are uninterpreted (`vintr`): both evaluators apply the same function to the same
+/// arguments, so what is checked is which built-in is invoked, on which arguments, in which order, at which types.
+#[derive(Clone, Copy, PartialEq, Debug)]
+pub enum RetRule {
+    /// same type as the first argument
+    Same,
+    /// shape of the first argument, this scalar kind
+    Shape(T),
+    /// a scalar of the first argument's kind
+    ScalarOfKind,
+    /// a scalar of this kind
+    Scalar(T),
+    /// type of the second argument (`select(c, a, b)`)
+    Second,
+}
+
+pub const VBUILTINS: &[(&str, &str, RetRule)] = &[
+    ("abs", "Abs", RetRule::Same), ("acos", "Acos", RetRule::Same), ("asin", "Asin", RetRule::Same), ("atan", "Atan", RetRule::Same),
+    ("atan2", "Atan2", RetRule::Same), ("cos", "Cos", RetRule::Same), ("cosh", "Cosh", RetRule::Same), ("sin", "Sin", RetRule::Same),
+    ("sinh", "Sinh", RetRule::Same), ("tan", "Tan", RetRule::Same), ("tanh", "Tanh", RetRule::Same), ("sqrt", "Sqrt", RetRule::Same),
+    ("rsqrt", "RcpSqrt", RetRule::Same), ("pow", "Pow", RetRule::Same), ("exp", "Exp", RetRule::Same), ("exp2", "Exp2", RetRule::Same),
+    ("log", "Log", RetRule::Same), ("log2", "Log2", RetRule::Same), ("log10", "Log10", RetRule::Same), ("floor", "Floor", RetRule::Same),
+    ("ceil", "Ceil", RetRule::Same), ("trunc", "Trunc", RetRule::Same), ("round", "Round", RetRule::Same), ("frac", "Frac", RetRule::Same),
+    ("fmod", "Fmod", RetRule::Same), ("rcp", "Rcp", RetRule::Same), ("saturate", "Saturate", RetRule::Same),
+    ("sign", "Sign", RetRule::Shape(T::Int)), ("min", "Min", RetRule::Same), ("max", "Max", RetRule::Same), ("step", "Step", RetRule::Same),
+    ("clamp", "Clamp", RetRule::Same), ("lerp", "Lerp", RetRule::Same), ("smoothstep", "SmoothStep", RetRule::Same),
+    ("isnan", "IsNaN", RetRule::Shape(T::Bool)), ("isinf", "IsInfinite", RetRule::Shape(T::Bool)), ("isfinite", "IsFinite", RetRule::Shape(T::Bool)),
+    ("asint", "AsInt", RetRule::Shape(T::Int)), ("asuint", "AsUInt", RetRule::Shape(T::Uint)), ("asfloat", "AsFloat", RetRule::Shape(T::Float)),
+    ("countbits", "CountBits", RetRule::Shape(T::Uint)), ("reversebits", "ReverseBits", RetRule::Same),
+    ("firstbithigh", "FirstBitHigh", RetRule::Shape(T::Uint)), ("firstbitlow", "FirstBitLow", RetRule::Shape(T::Uint)),
+    ("f16tof32", "F16ToF32", RetRule::Shape(T::Float)), ("f32tof16", "F32ToF16", RetRule::Shape(T::Uint)),
+    ("dot", "Dot", RetRule::ScalarOfKind), ("length", "Length", RetRule::ScalarOfKind), ("distance", "Distance", RetRule::ScalarOfKind),
+    ("normalize", "Normalize", RetRule::Same), ("cross", "Cross", RetRule::Same), ("reflect", "Reflect", RetRule::Same),
+    ("any", "Any", RetRule::Scalar(T::Bool)), ("all", "All", RetRule::Scalar(T::Bool)),
+    ("and", "And", RetRule::Same), ("or", "Or", RetRule::Same), ("select", "Select", RetRule::Second),
+];
+
+pub fn is_vector_builtin(variant: &str) -> bool {
+    VBUILTINS.iter().any(|b| b.1 == variant)
+}
+
+pub fn vbuiltin_of_name(name: &str) -> Option<(&'static str, RetRule)> {
+    VBUILTINS.iter().find(|b| b.0 == name).map(|b| (b.1, b.2))
+}
+
+pub fn ret_by_rule(rule: RetRule, args: &[Ty]) -> Option<Ty> {
+    let first = args.first()?;
+    Some(match rule {
+        RetRule::Same => first.clone(),
+        RetRule::Shape(k) => first.with_scalar(k),
+        RetRule::ScalarOfKind => Ty::S(first.scalar()?),
+        RetRule::Scalar(k) => Ty::S(k),
+        RetRule::Second => args.get(1)?.clone(),
+    })
+}
+
+/// the uninterpreted value of built-in `variant` applied at parameter types `ptys` to `args`, of type `ret`
+pub fn vintr(variant: &str, ptys: &[String], args: &[VV], ret: &Ty) -> Option<VV> {
+    let step = |h: u32, x: u32| (h ^ x).wrapping_mul(16777619);
+    let mut h: u32 = 2166136261;
+    for b in variant.bytes() {
+        h = step(h, b as u32);
+    }
+    for t in ptys {
+        for b in t.bytes() {
+            h = step(h, b as u32);
+        }
+        h = step(h, 0x2c);
+    }
+    for a in args {
+        for c in a.comps()? {
+            let x = match c {
+                V::B(x) => x as u32,
+                V::I(x) | V::U(x) | V::F(x) => x,
+                _ => return None,
+            };
+            h = step(h, x);
+        }
+        h = step(h, 0x3b);
+    }
+    let k = ret.scalar()?;
+    let one = |i: u32| -> Option<V> {
+        let v = step(h, 0x100 + i).rotate_left(7) ^ h;
+        Some(match k {
+            T::Bool => V::B(v & 1 == 1),
+            T::Int => V::I(v),
+            T::Uint => V::U(v),
+            T::Float => V::F(v),
+            _ => return None,
+        })
+    };
+    Some(match ret {
+        Ty::S(_) => VV::S(one(0)?),
+        Ty::V(_, n) => VV::V((0..*n as u32).map(one).collect::<Option<Vec<V>>>()?),
+        Ty::M(_, r, c) => VV::M(*r, *c, (0..(*r * *c) as u32).map(one).collect::<Option<Vec<V>>>()?),
+        _ => return None,
+    })
+}
